@@ -465,6 +465,16 @@ def uncovered_pd_path(
             i, j, graph.directed_edge_name
         )
 
+    # the given edge from 'first_node' to 'u', or from 'u' to 'second_node', is part of
+    # the returned path and so has to be potentially directed as well
+    if first_node is not None and not _pd_edge(first_node, u):
+        return uncov_pd_path, found_uncovered_pd_path
+    if second_node is not None:
+        if not _pd_edge(u, second_node):
+            return uncov_pd_path, found_uncovered_pd_path
+        if second_node == c:
+            return [u, c], True
+
     # now add 'a' to the queue and begin exploring
     # adjacent nodes that are connected with bidirected edges
     path = deque([start_node])
